@@ -1,4 +1,7 @@
 import KcpVerif.Lemmas.KcpWindow
+import KcpVerif.Lemmas.KcpWire
+import KcpVerif.Lemmas.KcpAdmit
+import KcpVerif.Lemmas.KcpCwnd
 /-!
 C04 — window discipline: bounded buffering, truthful window, backpressure.
 
@@ -86,6 +89,116 @@ theorem C04_inflight_bound (conv snd0 rcv0 : U32) (ops : List Op) (hok : okRun (
   have h := (reachable_inv conv snd0 rcv0 ops hok).snd
   exact ⟨h.small, h.consec, h.inflight, h.len_le⟩
 
+/-! ### 3. truthful window -/
+
+/-- the value `wnd_unused()` never exceeds the free space of the delivery queue (the `uint16`
+truncation can only lower it) and is exact whenever that space fits 16 bits -/
+theorem C04_wnd_value (k : Kcp) :
+    (wndUnused k).toNat ≤ k.rcv_wnd.toNat - k.rcv_queue.length ∧
+    (k.rcv_wnd.toNat - k.rcv_queue.length < 2^16 → (wndUnused k).toNat = k.rcv_wnd.toNat - k.rcv_queue.length) :=
+  ⟨wndUnused_le k, wndUnused_eq k⟩
+
+/-- every datagram handed to `output` by ANY operation from ANY state (`Input` included, whatever it
+was fed) is a concatenation of whole encoded segments `l` — ACK, WASK, WINS, PUSH alike — and every one
+of them carries in its `wnd` field exactly `wnd_unused()` of the state the operation leaves behind,
+hence at most the free space of the delivery queue.  (`stepPanic`: the model recorded a slice-bounds
+panic of the real code, after which nothing is modelled.) -/
+theorem C04_wnd_truthful (k : Kcp) (op : Op) (hp : stepPanic k op = false) :
+    ∀ o ∈ stepOuts k op, ∃ l : List WireSeg, o = encSegs l ∧
+      ∀ w ∈ l, w.wnd = wndUnused (step k op) ∧
+               w.wnd.toNat ≤ (step k op).rcv_wnd.toNat - (step k op).rcv_queue.length := by
+  intro o hm
+  obtain ⟨l, e, hw⟩ := step_allWnd k op hp o hm
+  exact ⟨l, e, fun w hwl => ⟨hw w hwl, by rw [hw w hwl]; exact wndUnused_le _⟩⟩
+
+/-- the same for `flush` alone, against the state it started from (the value is computed once, at the
+start, and stamped on every header: ACK/WASK/WINS through the scratch header, PUSH by `xmitOne`) -/
+theorem C04_wnd_truthful_flush (k : Kcp) (full : Bool) (now : U32) (hp : (flush k full now).panic = false) :
+    ∀ o ∈ (flush k full now).outs, AllWnd (wndUnused k) o := flush_allWnd k full now hp
+
+/-! ### 5. admission rule -/
+
+/-- phase 4, one segment: the head of `snd_queue` receives the sequence number `nxt` ONLY in the branch
+where the window test succeeded … -/
+theorem C04_admission_step (conv una cwnd now : U32) (s : Seg) (rest buf : List Seg) (nxt : U32) (c : Nat) :
+    admitSegs conv una cwnd now (s :: rest) buf nxt c =
+      if itimediff nxt (una + cwnd) ≥ 0 then ⟨s :: rest, buf, nxt, c⟩
+      else admitSegs conv una cwnd now rest
+        (buf ++ [{ s with conv := conv, cmd := BitVec.ofNat 8 IKCP_CMD_PUSH, sn := nxt, resendts := now }])
+        (nxt + 1) (c + 1) := rfl
+
+/-- … and under the send invariant that test IS "in flight `< cwnd_eff`" (unsigned), where
+`cwnd_eff = effCwnd k = min snd_wnd rmt_wnd` and, when `nocwnd = 0`, also `≤ cwnd` -/
+theorem C04_admission_guard (k : Kcp) (h : Inv k) :
+    ¬ (itimediff k.snd_nxt (k.snd_una + effCwnd k) ≥ 0) ↔
+      ((k.snd_nxt - k.snd_una) < k.snd_wnd ∧ (k.snd_nxt - k.snd_una) < k.rmt_wnd ∧
+       (k.nocwnd = 0 → (k.snd_nxt - k.snd_una) < k.cwnd)) := by
+  rw [admit_guard_bv h.snd (effCwnd_le k), lt_effCwnd_iff]
+
+/-- the admission rule for a whole `flush` from any state with the window invariant (in particular
+every reachable one): afterwards `snd_buf` holds the old sequence numbers followed by `new`, taken from the
+front of `snd_queue`; and every `sn ∈ new` was assigned at a moment when the in-flight count — which at
+that moment is `sn - snd_una`, `sn` being `snd_nxt` — was `< snd_wnd`, `< rmt_wnd` and, with congestion
+control on, `< cwnd`. -/
+theorem C04_admission_rule (k : Kcp) (full : Bool) (now : U32) (h : Inv k) :
+    ∃ new : List U32,
+      (flush k full now).k.snd_buf.map (·.sn) = k.snd_buf.map (·.sn) ++ new ∧
+      (flush k full now).k.snd_nxt = k.snd_nxt + BitVec.ofNat 32 new.length ∧
+      (flush k full now).k.snd_queue = k.snd_queue.drop new.length ∧
+      (flush k full now).k.snd_una = k.snd_una ∧
+      ∀ sn ∈ new, (k.snd_nxt - k.snd_una) ≤ (sn - k.snd_una) ∧
+        (sn - k.snd_una) < k.snd_wnd ∧ (sn - k.snd_una) < k.rmt_wnd ∧ (k.nocwnd = 0 → (sn - k.snd_una) < k.cwnd) :=
+  flush_admission k full now h
+
+/-- backpressure: while the effective window is full a flush admits nothing -/
+theorem C04_backpressure (k : Kcp) (full : Bool) (now : U32) (h : Inv k)
+    (hfull : ¬ (k.snd_nxt - k.snd_una) < effCwnd k) :
+    (flush k full now).k.snd_nxt = k.snd_nxt ∧ (flush k full now).k.snd_queue = k.snd_queue ∧
+    (flush k full now).k.snd_buf.length = k.snd_buf.length := flush_window_full k full now h hfull
+
+/-! ### 6. congestion window -/
+
+/-- a full flush that retransmits at least one segment by timeout (`flushLost` counts the segments of
+`snd_buf` that phase 5 resends because `resendts` was reached — `RtoDue`) leaves `cwnd = 1` -/
+theorem C04_rto_collapse (k : Kcp) (now : U32) (hn : k.nocwnd = 0) (hl : flushLost k now > 0) :
+    (flush k true now).k.cwnd = 1 := flush_rto_collapse k now hn hl
+
+/-- the hypothesis in terms of the state before the flush: some unacknowledged, already transmitted
+segment without pending fast-ack count is overdue -/
+theorem C04_rto_collapse' (k : Kcp) (now : U32) (hn : k.nocwnd = 0) (s : Seg) (hs : s ∈ k.snd_buf)
+    (ha : s.acked = false) (hx : s.xmit ≠ 0) (hf : s.fastack = 0 ∨ s.fastack = 0xFFFFFFFF#32)
+    (hd : itimediff now s.resendts ≥ 0) : (flush k true now).k.cwnd = 1 :=
+  flush_rto_collapse k now hn (flushLost_pos k now s hs ha hx hf hd)
+
+/-- hence, with one segment or more in flight afterwards, nothing new is admitted by a later flush until
+`cwnd` grows again — which only `Input` does, and only when `snd_una` advanced (`cwndOnAck`) -/
+theorem C04_after_collapse_no_admission (k : Kcp) (full : Bool) (now : U32) (h : Inv k) (hn : k.nocwnd = 0)
+    (hc : k.cwnd = 1) (hin : k.snd_buf ≠ []) :
+    (flush k full now).k.snd_nxt = k.snd_nxt ∧ (flush k full now).k.snd_queue = k.snd_queue := by
+  have hfl := h.snd.inflight
+  have hlen : 0 < k.snd_buf.length := List.length_pos_iff.2 hin
+  have := flush_window_full k full now h (by
+    intro hlt
+    have := ((lt_effCwnd_iff k _).1 hlt).2.2 hn
+    rw [hc] at this
+    bv_omega)
+  exact ⟨this.1, this.2.1⟩
+
+theorem C04_cwnd_unchanged_without_advance (k : Kcp) (oldUna : U32) (h : ¬ itimediff k.snd_una oldUna > 0) :
+    cwndOnAck k oldUna = k := by
+  rw [cwndOnAck_eq, if_neg (fun hc => h hc.2.1)]
+
+/-- `1 ≤ cwnd` after ANY flush with congestion control on -/
+theorem C04_cwnd_sane (k : Kcp) (full : Bool) (now : U32) (hn : k.nocwnd = 0) :
+    1 ≤ (flush k full now).k.cwnd := flush_cwnd_ge k full now hn
+
+/-- `cwnd ≤ rmt_wnd` after the ack-driven update of `Input` whenever it changed `cwnd`
+(and `rmt_wnd` is the value the peer advertised: the update does not touch it) -/
+theorem C04_cwnd_le_rmt (k : Kcp) (oldUna : U32) (hch : (cwndOnAck k oldUna).cwnd ≠ k.cwnd) :
+    (cwndOnAck k oldUna).cwnd ≤ k.rmt_wnd := by
+  have := cwndOnAck_changed k oldUna hch
+  rwa [cwndOnAck_rmt] at this
+
 /-! ### non-vacuity: a concrete run across the 32-bit wrap with forged and out-of-order input -/
 
 /-- PUSH segments for conv 7 (`sn` = FFFFFFFF / FFFFFFFE / 0), one payload byte each -/
@@ -119,5 +232,35 @@ example :
 example :
     let k := run (start 7 0xFFFFFFF0#32 0xFFFFFFFE#32) (demoOps.take 10)
     k.rcv_queue.map (·.sn) = [0xFFFFFFFE#32, 0xFFFFFFFF#32] ∧ k.rcv_nxt = 0 ∧ k.rcv_buf = [] := by decide
+
+/-- `C04_wnd_truthful` is not vacuous: operation 12 of the demo run (`update 300`) emits one datagram
+without panic, operation 6 (`flush`) emits the two PUSH segments -/
+example :
+    let k := run (start 7 0xFFFFFFF0#32 0xFFFFFFFE#32) (demoOps.take 11)
+    stepPanic k (.update 300) = false ∧ (stepOuts k (.update 300)).length = 1 := by decide
+example :
+    let k := run (start 7 0xFFFFFFF0#32 0xFFFFFFFE#32) (demoOps.take 5)
+    stepPanic k (.flush true 100) = false ∧ (stepOuts k (.flush true 100)).map List.length = [24 + 3 + 24 + 1] := by
+  decide
+
+/-- `C04_backpressure` is not vacuous: after 6 operations the window (2) is full with one segment queued -/
+example :
+    let k := run (start 7 0xFFFFFFF0#32 0xFFFFFFFE#32) (demoOps.take 6)
+    ¬ (k.snd_nxt - k.snd_una) < effCwnd k ∧ k.snd_queue.length = 1 := by decide
+
+/-- a sender with congestion control on: three messages, the first flush opens `cwnd` to 1, the second
+sends segment 0 at t = 110 (due again at 310) -/
+def rtoOps : List Op := [.send [1], .send [2], .send [3], .flush true 100, .flush true 110]
+def rtoState : Kcp := { run (start 9 0 0) rtoOps with cwnd := 5, rmt_wnd := 5 }
+
+/-- `C04_rto_collapse` / `C04_after_collapse_no_admission` are not vacuous: at t = 1000 the segment is
+overdue; the flush resends it, admits up to the (still open) window first, and collapses `cwnd` from 5 to 1 -/
+example : rtoState.nocwnd = 0 ∧ flushLost rtoState 1000 > 0 ∧ rtoState.cwnd = 5 ∧
+    (flush rtoState true 1000).k.cwnd = 1 ∧ (flush rtoState true 1000).k.snd_buf ≠ [] := by decide
+
+/-- `C04_cwnd_le_rmt` is not vacuous: an acknowledged segment grows `cwnd` from 1 to 2 -/
+example :
+    let k := { run (start 9 0 0) rtoOps with snd_una := 1, snd_buf := [] }
+    (cwndOnAck k 0).cwnd = 2 ∧ k.cwnd = 1 := by decide
 
 end KcpVerif.Props
